@@ -28,7 +28,7 @@ func main() { vlib.Run("C24", run) }
 
 func run(c *vlib.Ctx) {
 	c.Rule("histories of 5-40 ops {Add,Delete,DeleteKey,DeleteAll,Search,HasValue,HasAny,ForEach(key|\"\"|early stop),empty key/value} on 1-3 sibling indexers (prefix-related namespace names) over one datastore; keys/values from a pool of 6-9 arbitrary byte strings incl. NUL, '/', 0xff, byte-prefix chains, 3-byte-aligned prefixes (base64url encodings are string prefixes), encoded-looking strings, path-join colliding splits; distinct = FNV of config+op list; non-trivial = a key-scoped query/DeleteKey ran while another present key's encoding had the queried key's encoding as a string prefix AND some delete removed >= 1 pair")
-	c.Cases("hist", c.N(2000, 60000), oneHistory)
+	c.Cases("hist", c.N(2000, 12000), oneHistory)
 }
 
 type pairSet map[string]map[string]bool
